@@ -25,6 +25,14 @@ EXTENDS Integers, Sequences, FiniteSets, TLC, Json, IOUtils
 
 CONSTANTS Threads, K          \* thread ids 1..n, operations per thread
 
+\* what each name stands for in harness/readers.cpp (every member called on the shared CONST vector / element):
+\*   size    size()                       data   data_begin/data_end, capacity, empty, memory_consumption, get_fixed_size,
+\*   index   operator[], front, back,            get_allocator, cbegin/cend arithmetic and comparison, it[k]
+\*           begin()[i], the reference's data_begin/data_end/size_in_bytes
+\*   iterate begin..end, *it              equal  == and != of vectors, element == reference, front()
+\*   less    < of vectors, element < reference and back
+\*   copy    copy construction (+ mutation of the private copy)
+\*   elem    ContiguousElement from a const reference, const_reference from the element, element == reference
 OpsR == {"size", "index", "iterate", "equal", "less", "copy", "elem", "data"}
 
 Shared == {"hdr", "tbl", "dat"}
